@@ -1,12 +1,196 @@
-(* C07 — property theorems (placeholder while the pipeline is brought up). *)
-From Coq Require Import List String Bool NArith.
+(* C07 — property theorems only.  Every proof is `exact <lemma>` / a closed computation on a generated table or a
+   refutation witness; Print Assumptions follows each.
+   Third-party functions (JSON-LD expansion + URDNA2015 canonicalisation, compaction, time / base64 / multibase
+   decoding) and the signature primitives are universally quantified parameters; what is assumed of them is
+   written as explicit hypotheses IN the statements:
+     canon_inj      equal canonical forms carry equal content (content : json -> C is any projection, e.g. the RDF
+                    dataset of the terms defined in the document's context);
+     content_opts   the content of a proof-options object determines its protected members (their terms are
+                    defined in the options' context);
+     pv_honest / seg_honest   a byte string that means "signature by k over m" was produced by the holder of k
+                    over m (ideal signatures: unforgeability, one meaning per byte string). *)
+From Coq Require Import List String Bool NArith ZArith.
 Import ListNotations.
-From VF Require Import common.Json gen.Gen_C07 C07.Model.
+From VF Require Import common.Json gen.Gen_C07 C07.Model C07.Proofs.
 Open Scope string_scope.
+Open Scope list_scope.
 
-(* the proof options the property names are never dropped from the digest (generated table) *)
+(* ---- generated tables: the proof options the property names are never dropped before canonicalisation, in either
+        signature representation; `created` is mandatory; every proof of a set is checked ---- *)
 Theorem options_protected :
   forallb (fun k => negb (mem_str k excluded_keys) && negb (mem_str k jws_deleted_keys))
-          ["created"; "verificationMethod"; "proofPurpose"; "domain"; "challenge"; "type"] = true.
-Proof. vm_compute. reflexivity. Qed.
+          ["created"; "verificationMethod"; "proofPurpose"; "domain"; "challenge"; "type"; "creator"; "capabilityChain"] = true
+  /\ mem_str "created" mandatory_keys = true
+  /\ verify_object_checks_all_proofs = true.
+Proof. vm_compute. auto. Qed.
 Print Assumptions options_protected.
+
+(* the model's re-emission of a typed proof has exactly the members the real Proof.JSONLdObject emits (executed by the
+   translator on a fully populated and on a minimal proof) *)
+Theorem emitted_members_agree :
+  map fst (jsonld_object {| p_type := "T"; p_created := "c"; p_creator := "cr"; p_vm := "v"; p_pv := "s"; p_pv_len := true;
+                            p_jws := "a..b"; p_purpose := "p"; p_domain := "d"; p_nonce := "n"; p_challenge := "ch";
+                            p_repr := RProofValue; p_chain := Some [] |}) = emitted_members
+  /\ map fst (jsonld_object {| p_type := ""; p_created := "c"; p_creator := ""; p_vm := ""; p_pv := ""; p_pv_len := false;
+                               p_jws := ""; p_purpose := ""; p_domain := ""; p_nonce := ""; p_challenge := "";
+                               p_repr := RProofValue; p_chain := None |}) = always_members
+  /\ di_members Fixed = di_config_members
+  /\ forallb (fun k => mem_str k di_config_members) ["created"; "verificationMethod"; "proofPurpose"; "domain"; "challenge"] = true.
+Proof. vm_compute. auto. Qed.
+Print Assumptions emitted_members_agree.
+
+(* ---- FULL STATEMENT, one proof.  For every canonicaliser, compactor, decoder, resolver, suite configuration:
+   if a proof p is accepted for a document d against the key k it names, and the holder of k has only ever signed
+   the message produced by signing document d0 with options c through signObject, then
+     - d (without its proof member) has the same content as d0 (so no claim, issuer, date, type or context term
+       differs: whatever `content` retains), in the canonicaliser input actually used and in the plain document;
+     - created, verificationMethod, proofPurpose, domain, challenge, type and creator of p are those of c;
+     - the signature representation is the one signed. ---- *)
+Theorem tamper_detected :
+  forall (canon : json -> option N) (compact_sec : json -> option json)
+         (pv_dec : string -> string -> dec) (seg_dec : string -> dec) (resolve : string -> string -> option N)
+         (accepts : string -> bool) (compact_proof : bool)
+         (C : Type) (content : json -> C),
+    (forall a b n, canon a = Some n -> canon b = Some n -> content a = content b) ->
+    (forall j j', compact_sec j = Some j' -> content j' = content j) ->
+    (forall o o', content (JObj o) = content (JObj o') -> forall k, In k protected -> lookup o k = lookup o' k) ->
+    forall (signed_by : N -> msg -> Prop),
+    (forall t ty k m, pv_dec t ty = DSig (SBy k m) -> signed_by k m) ->
+    (forall s k m, seg_dec s = DSig (SBy k m) -> signed_by k m) ->
+    forall d p k d0 c,
+    (forall m, signed_by k m -> Some m = sign_message canon compact_sec compact_proof excluded_keys d0 c) ->
+    key_of resolve p = Some k ->
+    verify_one canon compact_sec pv_dec seg_dec resolve accepts compact_proof excluded_keys d p = true ->
+    (exists j j0, doc_input compact_sec compact_proof d p = Some j /\
+                  doc_input compact_sec compact_proof d0 (proof_of_ctx c) = Some j0 /\ content j = content j0 /\
+                  content (JObj (without_proof d)) = content (JObj (without_proof d0)))
+    /\ same_protected p (proof_of_ctx c)
+    /\ p_repr p = s_repr c.
+Proof. exact tamper_one. Qed.
+Print Assumptions tamper_detected.
+
+(* ---- documents and proof sets: an accepted document has a proof member, every entry of it decodes into a typed
+        proof carrying the received members, and EVERY entry verifies (the count is the number of entries) ---- *)
+Theorem all_proofs_needed :
+  forall canon compact_sec time_ok nonce_dec pv_dec seg_dec resolve accepts compact_proof d n,
+    verify_object canon compact_sec time_ok nonce_dec pv_dec seg_dec resolve accepts compact_proof excluded_keys d = Verified n ->
+    exists pe ms, lookup d "proof" = Some pe /\ proof_entries pe = Some ms /\ n = List.length ms /\
+      forall m, In m ms -> exists p, new_proof time_ok nonce_dec pv_dec m = Some p /\
+        verify_one canon compact_sec pv_dec seg_dec resolve accepts compact_proof excluded_keys d p = true.
+Proof. exact verify_object_all. Qed.
+Print Assumptions all_proofs_needed.
+
+Theorem one_bad_proof_rejects :
+  forall canon compact_sec time_ok nonce_dec pv_dec seg_dec resolve accepts compact_proof d pe ms m,
+    lookup d "proof" = Some pe -> proof_entries pe = Some ms -> In m ms ->
+    (forall p, new_proof time_ok nonce_dec pv_dec m = Some p ->
+               verify_one canon compact_sec pv_dec seg_dec resolve accepts compact_proof excluded_keys d p = false) ->
+    verify_object canon compact_sec time_ok nonce_dec pv_dec seg_dec resolve accepts compact_proof excluded_keys d = Rejected.
+Proof. exact verify_object_one_bad. Qed.
+Print Assumptions one_bad_proof_rejects.
+
+(* the typed proof holds exactly the received option members (so equality of the typed options, above, is equality
+   of the members of the received proof object), and a proof whose `created` does not parse is never accepted *)
+Theorem typed_proof_is_received :
+  forall time_ok nonce_dec pv_dec m p,
+    new_proof time_ok nonce_dec pv_dec m = Some p ->
+    p_created p = str_entry (lookup m "created") /\ p_vm p = str_entry (lookup m "verificationMethod") /\
+    p_purpose p = str_entry (lookup m "proofPurpose") /\ p_domain p = str_entry (lookup m "domain") /\
+    p_challenge p = str_entry (lookup m "challenge") /\ p_type p = str_entry (lookup m "type") /\
+    p_creator p = str_entry (lookup m "creator") /\ time_ok (str_entry (lookup m "created")) = true.
+Proof. exact new_proof_fields. Qed.
+Print Assumptions typed_proof_is_received.
+
+(* ---- Data Integrity ecdsa-2019: an accepted proof names a key of the resolved DID document for the expected
+        purpose, and the signature is over (canonical document, canonical configuration) where the configuration
+        holds the proof's created / verificationMethod / proofPurpose and, since the fix, domain and challenge ---- *)
+Theorem di_accept_sound :
+  forall canon di_time_ok di_time_norm di_suite_ok di_resolve di_sig di_expect mem d pe n,
+    verify_di canon di_time_ok di_time_norm di_suite_ok di_resolve di_sig di_expect mem d pe = Verified n ->
+    exists m k cd cc,
+      pe = JObj m /\ n = 1%nat /\
+      di_resolve (str_entry (lookup m "verificationMethod")) (di_epu di_expect) = Some k /\
+      str_entry (lookup m "proofPurpose") = di_epu di_expect /\
+      di_time_ok (str_entry (lookup m "created")) = true /\
+      canon (JObj (without_proof d)) = Some cd /\
+      canon (JObj (di_config mem (match lookup d "@context" with Some c => c | None => JNull end)
+                             (set_key "proofPurpose" (JStr (di_epu di_expect)) m)
+                             (di_time_norm (str_entry (lookup m "created"))))) = Some cc /\
+      di_sig (str_entry (lookup m "proofValue")) = DSig (SBy k (MDI cd cc)).
+Proof. exact verify_di_sound. Qed.
+Print Assumptions di_accept_sound.
+
+Theorem di_config_covers_domain_challenge :
+  forall ctx m t,
+    lookup (di_config di_config_members ctx m t) "domain" =
+      (if nonempty (str_entry (lookup m "domain")) then Some (JStr (str_entry (lookup m "domain"))) else None) /\
+    lookup (di_config di_config_members ctx m t) "challenge" =
+      (if nonempty (str_entry (lookup m "challenge")) then Some (JStr (str_entry (lookup m "challenge"))) else None) /\
+    lookup (di_config di_config_members ctx m t) "created" = Some (JStr t) /\
+    lookup (di_config di_config_members ctx m t) "verificationMethod" = Some (JStr (str_entry (lookup m "verificationMethod"))) /\
+    lookup (di_config di_config_members ctx m t) "proofPurpose" = Some (JStr (str_entry (lookup m "proofPurpose"))) /\
+    lookup (di_config di_config_members ctx m t) "@context" = Some ctx.
+Proof.
+  intros ctx m t. split; [apply di_config_domain|]. split; [apply di_config_challenge|]. apply di_config_fixed.
+Qed.
+Print Assumptions di_config_covers_domain_challenge.
+
+(* AS FOUND the configuration did not hold domain and challenge: two proofs that differ in both are signed over
+   the very same configuration (fixed in /repo: "fix: ecdsa-2019 proof configuration covers ... domain and challenge") *)
+Theorem di_domain_challenge_asis_refuted :
+  let m1 := [("challenge", JStr "c1"); ("created", JStr "t"); ("domain", JStr "shop.example"); ("proofPurpose", JStr "assertionMethod");
+             ("verificationMethod", JStr "did:x#k")] in
+  let m2 := [("challenge", JStr "c2"); ("created", JStr "t"); ("domain", JStr "evil.example"); ("proofPurpose", JStr "assertionMethod");
+             ("verificationMethod", JStr "did:x#k")] in
+  di_config (di_members AsIs) JNull m1 "t" = di_config (di_members AsIs) JNull m2 "t" /\
+  di_config (di_members Fixed) JNull m1 "t" <> di_config (di_members Fixed) JNull m2 "t".
+Proof. split; [vm_compute; reflexivity|vm_compute; discriminate]. Qed.
+Print Assumptions di_domain_challenge_asis_refuted.
+
+(* ---- strict mode (validator.mapsHaveSameStructure).  AS FOUND an undefined property inside an element of an array
+        of two or more elements was not noticed: the document and its compaction (the undefined member dropped)
+        compare as "same structure".  Fixed in /repo ("fix: strict JSON-LD validation compares the objects inside
+        arrays"); the repaired comparison rejects the witness. ---- *)
+Definition strict_witness : obj :=
+  [("@context", JStr "c");
+   ("credentialSubject", JObj [("items", JArr [JObj [("beta", JStr "b1"); ("zz_undef", JStr "x")]; JObj [("beta", JStr "b2")]])])].
+Definition strict_witness_compacted : obj :=
+  [("@context", JStr "c");
+   ("credentialSubject", JObj [("items", JArr [JObj [("beta", JStr "b1")]; JObj [("beta", JStr "b2")]])])].
+
+Theorem strict_arrays_asis_refuted :
+  same_structure AsIs strict_witness strict_witness_compacted = true /\
+  same_structure Fixed strict_witness strict_witness_compacted = false.
+Proof. split; vm_compute; reflexivity. Qed.
+Print Assumptions strict_arrays_asis_refuted.
+
+(* ---- non-vacuity: a concrete instance of every parameter (the canonicaliser is a finite injective table) in which
+        a signed document verifies, and the edited one (a claim changed) does not ---- *)
+Definition ex_doc : obj := [("@context", JStr "ctx"); ("claim", JStr "v"); ("id", JStr "urn:1")].
+Definition ex_ctx : sign_ctx :=
+  {| s_type := "Ed25519Signature2018"; s_repr := RProofValue; s_created := "2021-01-01T00:00:00Z"; s_vm := "did:ex:i#k1";
+     s_domain := "shop.example"; s_challenge := "c-1"; s_purpose := ""; s_nonce := ""; s_alg_header := "" |}.
+Definition ex_opts : json :=
+  JObj [("@context", JStr "ctx"); ("challenge", JStr "c-1"); ("created", JStr "2021-01-01T00:00:00Z"); ("domain", JStr "shop.example");
+        ("proofPurpose", JStr "assertionMethod"); ("type", JStr "Ed25519Signature2018"); ("verificationMethod", JStr "did:ex:i#k1")].
+Definition ex_canon (j : json) : option N :=
+  if json_eqb j ex_opts then Some 1%N
+  else if json_eqb j (JObj ex_doc) then Some 2%N
+  else if json_eqb j (JObj [("@context", JStr "ctx"); ("claim", JStr "w"); ("id", JStr "urn:1")]) then Some 3%N
+  else None.
+Definition ex_pv (t ty : string) : dec :=
+  if String.eqb t "SIG" then DSig (SBy 7%N (MHash 1%N 2%N)) else DErr.
+Definition ex_verify (d : obj) : outcome :=
+  check_embedded ex_canon (fun _ => None) (fun _ => true) (fun _ => Some "") ex_pv (fun _ => DErr)
+    (fun d f => if String.eqb d "did:ex:i" && String.eqb f "#k1" then Some 7%N else None)
+    (fun t => String.eqb t "Ed25519Signature2018") false
+    (fun _ => false) (fun s => s) (fun _ => false) (fun _ _ => None) (fun _ => DErr) ("", "", "")
+    excluded_keys di_config_members true d.
+
+Example sign_then_verify_nonvacuous :
+  sign_message ex_canon (fun _ => None) false excluded_keys ex_doc ex_ctx = Some (MHash 1%N 2%N) /\
+  ex_verify (add_proof ex_doc (signed_proof ex_ctx "SIG")) = Verified 1 /\
+  ex_verify (set_key "claim" (JStr "w") (add_proof ex_doc (signed_proof ex_ctx "SIG"))) = Rejected /\
+  ex_verify (add_proof ex_doc (set_key "domain" (JStr "evil.example") (signed_proof ex_ctx "SIG"))) = Rejected /\
+  ex_verify ex_doc = Unverified.
+Proof. vm_compute. repeat split. Qed.
